@@ -357,6 +357,7 @@ def assemble(ctx, ev, s, sid, construct, loc, n_out, final_idx=None, reverse_exp
 
 def kalman_smoother_rule(ctx, rule="POLY-kalman-smoother"):
     ev = mk_ev(ctx)
+    ev.canon_kw_functions.add(SS + "kalman_filter")   # kalman_filter(observations=..., ...) and the positional call are one term
     dotted = SS + "kalman_smoother"
     s = summarize(ctx, ev, dotted)
     loc = func_loc(ctx, dotted)
@@ -406,9 +407,19 @@ def backward_assembly(ctx, ev, s, sid, rec, construct, loc, n_out, T_term, rule=
         problems.append(f"time indices must cover T−2 … 0 (found {short(xs, ev)})")
     elif desc == reverse:
         problems.append("the pass must run backward in time (descending indices without reverse=, or ascending with reverse=True)")
-    ret = items(s.ret) or [s.ret]
+    def component(t, k):
+        # k-th output of a return value that may be a conditional spine over tuples (early return on T <= 1)
+        if t[0] == "ifexp":
+            a, b = component(t[2], k), component(t[3], k)
+            return None if a is None or b is None else ("ifexp", t[1], a, b)
+        it = items(t)
+        if it is None:
+            return t if (n_out == 1 and k == 0) else None
+        return it[k] if k < len(it) else None
     for k in range(n_out):
-        t = ret[k]
+        t = component(s.ret, k)
+        if t is None:
+            raise AnalysisError(f"{construct}: return value is not a {n_out}-tuple on every path")
         for asg, leaf in all_cases(t):
             tg = t_guard(asg)
             if tg is None:
